@@ -34,6 +34,20 @@ def flatCalc (kind : String) (ev : PropEval) (fuel : Nat) : Except String Calc :
 
 def natJson (n : Nat) : Json := toJson n
 
+/-- the by-constituency calculator of a request: "capp" = "fixed" (apportionment dict "app") or the name of the
+    apportioning evaluator; "overall" = "given" (the evaluator itself on the vote totals) or "none" (default) -/
+def ctyCalc (j : Json) (ev : PropEval) (fuel : Nat) : Except String CCalc := do
+  let capp := (j.getObjValAs? String "capp").toOption.getD "fixed"
+  let cev ← if capp = "fixed" then do
+      let app ← getNatMap j "app"
+      pure (byConstituencyFixed ev app)
+    else do
+      let aev ← evalByName capp
+      pure (byConstituencyApportioned ev aev)
+  let overall := (j.getObjValAs? String "overall").toOption.getD "given"
+  if overall = "none" then pure (levelOverhangCtyDefault cev fuel)
+  else pure (levelOverhangCty cev ev fuel)
+
 def ndistJson (r : NDist) : Json :=
   Json.arr (r.map (fun p => Json.arr #[keyJson p.1, distJson p.2])).toArray
 
@@ -47,8 +61,8 @@ def handle (op : String) (j : Json) : Option (Except String Json) :=
     if kind = "level_cty" then
       let cv ← getCVotes j "cvotes"
       let cprev ← getCSeats j "cprev"
-      let app ← getNatMap j "app"
-      pure (exceptJson natJson (levelOverhangCty (byConstituencyFixed ev app) ev fuel cv n cprev))
+      let c ← ctyCalc j ev fuel
+      pure (exceptJson natJson (c cv n cprev))
     else
       let votes ← getVotes j "votes"
       let prev ← getNatMap j "prev"
@@ -65,13 +79,12 @@ def handle (op : String) (j : Json) : Option (Except String Json) :=
     if kind = "level_cty" then
       let cv ← getCVotes j "cvotes"
       let cprev ← getCSeats j "cprev"
-      let app ← getNatMap j "app"
-      let cev := byConstituencyFixed ev app
+      let c ← ctyCalc j ev fuel
       let aev ← evalByName (← j.getObjValAs? String "alloc")
-      let adjJ := exceptJson natJson (levelOverhangCty cev ev fuel cv n cprev)
+      let adjJ := exceptJson natJson (c cv n cprev)
       let resJ :=
-        if wrap = "multistage" then exceptJson ndistJson (multistageDE cprev cev ev fuel fev aev cv n)
-        else exceptJson ndistJson (adjustedByParty cev ev fuel fev aev cv n cprev)
+        if wrap = "multistage" then exceptJson ndistJson (multistageDE cprev c fev aev cv n)
+        else exceptJson ndistJson (adjustedByParty c fev aev cv n cprev)
       pure (Json.mkObj [("adj", adjJ), ("result", resJ)])
     else
       let votes ← getVotes j "votes"
